@@ -200,13 +200,11 @@ def run(ctx: Ctx, rs: RuleSet, tier: str):
   for n in walk_function(ac.node):
     if isinstance(n, ast.Call) and isinstance(
         n.func, ast.Attribute) and n.func.attr == 'apply' and len(n.args) == 2:
-      a0, a1 = unparse(n.args[0]), unparse(n.args[1])
       recv = unparse(n.func.value)
-      ok = a1 == f'{recv}.target[-1]'
-      parent_def = [s for s in walk_function(ac.node) if isinstance(
-          s, ast.Assign) and unparse(s.targets[0]) == a0]
-      ok = ok and len(parent_def) == 1 and unparse(
-          parent_def[0].value).endswith(f'[{recv}.target[:-1]]')
+      a0 = unparse(roles.deref(ac, n.args[0]))
+      a1 = unparse(roles.deref(ac, n.args[1]))
+      ok = a1 == f'{recv}.target[-1]' and a0.endswith(
+          f'[{recv}.target[:-1]]')
   rs.check(ok, 'ORD.application-order', f'{ac.qualname}:apply',
            'each change is applied to the value at target[:-1] with element '
            'target[-1]', ctx.loc(ac, ac.node))
